@@ -1,8 +1,9 @@
 (* Command dispatcher of the executable model: [run : sx -> sx].  Evaluated either by
    vm_compute inside Coq or through the OCaml extraction (coq/extract). *)
 From Coq Require Import String.
+From Gemato Require Import Py.PyLit.
 From Gemato Require Import Py.PyStr Py.PyTime Gen.PyFacts Gen.Tables Gen.Util
-  Model.Entry Model.Text Spec.Cleartext Exec.Sx.
+  Model.Entry Model.Text Model.OpenPGP Spec.Cleartext Spec.Accept Exec.Sx.
 Open Scope N_scope.
 
 Definition is_cmd (c : ustr) (s : string) : bool := ustr_eqb c (u s).
@@ -59,6 +60,15 @@ Definition run_text (c : ustr) (args : list sx) : option sx :=
       else if is_cmd c "ustr_ltb" then Some (sbool (ustr_ltb (x_str a) (x_str b)))
       else if is_cmd c "path_join" then Some (SS (path_join (x_str a) (x_str b)))
       else if is_cmd c "encode_sweep" then Some (encode_sweep (x_N a) (x_nat b))
+      else if is_cmd c "verify_file" then
+        Some (enc_res (fun d => SL [SS (sig_fp d); SS (sig_ts d); SS (sig_expts d); SS (sig_pkfp d)])
+                      (verify_file (x_Z a) (x_str b)))
+      else if is_cmd c "accept_spec" then
+        Some (SL [sbool (accept_spec (x_Z a) (bsplitlines (x_str b)));
+                  enc_pgpfail (failure_spec (x_Z a) (bsplitlines (x_str b)))])
+      else if is_cmd c "spawn_env" then
+        Some (SL (map (fun kv => SL [SS (fst kv); SS (snd kv)])
+                      (spawn_env (dec_sums a) (dec_sums b))))
       else None
   | [a; b; d] =>
       if is_cmd c "c04_b" then Some (sbool (c04_b (x_str a) (map dec_entry (x_list b)) (x_str d)))
